@@ -146,7 +146,8 @@ META = {
             "note": "Trusted: ThreadSanitizer's vector-clock detector (bounded access history per location) and the announcement of modelled mutexes; harness bookkeeping lives in uninstrumented code. Bounds as listed in the evidence."},
     "C20": {"engine": "vsched", "design_ref": "DESIGN.md §4 C20", "technique": "stateless model checking of the implementation: complete schedule enumeration of starter vs started thread, liveness-canary oracle, plain and AddressSanitizer",
             "text": "For every callable kind (function pointer with 0/2 lvalue arguments, small/large functor, lambda, Runnable, constructor form) ALL schedules of the starter and the new thread are executed; the starter overwrites its dead stack after start() returns. "
-                    "The invoked object must be alive (canary + registry, and ASan stack-use-after-return), invoked exactly once, isFinished() true only after the callable returned, join() after that.",
+                    "The invoked object must be alive (canary + registry, and ASan stack-use-after-return), invoked exactly once, isFinished() true only after the callable returned (also when asked by the callable itself on entry, and after the starter detached instead of joining), join() after that; "
+                    "a ThreadSanitizer pass requires the completion flag to order the callable before an observer that reads its results without joining.",
             "note": _E1_NOTE},
     "C12": {"engine": "vsched", "design_ref": "DESIGN.md §4 C12", "technique": "stateless model checking of the implementation: exhaustive preemption-bounded schedule enumeration, no-park and rendezvous oracles",
             "text": "Reader-only programs (2-6 threads), mixed programs and rendezvous programs (k readers queue behind a writer and must meet at a barrier inside the read section; with late readers that arrive while the admitted batch is still waking up; with one spurious wake-up). "
